@@ -228,8 +228,10 @@ def check_merge(ctx, prog):
         ctx.ob("merge", "expiry test uses the merged expiry", bool(stores) and all(b.dominates(x.bb, s.bb) for x in stores), s.loc(), "")
     for s in puts:
         ctx.guarded("merge", "an already expired record is not stored", s, lambda c, r, l: l == "false" and r.startswith("libp2p_kad::record::Record::is_expired(%s, " % REC), "!record.is_expired(now)")
-    callers = sorted({s.body.npath for s in prog.callers(K, r"record::store::RecordStore::put$|RecordStore>::put$") if "record::store::memory" not in s.body.npath})
-    ctx.ob("merge", "records enter the store only via record_received (peers) and put_record (local API)", callers == ["libp2p_kad::behaviour::Behaviour::put_record", "libp2p_kad::behaviour::Behaviour::record_received"], msg=str(callers))
+    callers = {lk.root_fn(prog, s.body) for s in prog.callers(K, r"record::store::RecordStore::put$|RecordStore>::put$") if "record::store::memory" not in s.body.npath}
+    two = {"libp2p_kad::behaviour::Behaviour::put_record", "libp2p_kad::behaviour::Behaviour::record_received"}
+    bad = sorted(c.npath for c in callers if not lk.allowed_fn(prog, K, c, two))
+    ctx.ob("merge", "records enter the store only via record_received (peers) and put_record (local API)", not bad and len(callers) >= 2, msg="callers %s; not permitted %s" % (sorted(c.short for c in callers), bad))
 
 
 def check_lint(ctx, prog):
